@@ -597,6 +597,8 @@ type slOp struct {
 
 func (op slOp) String() string {
 	switch op.kind {
+	case "failrefresh":
+		return "refresh that fails (list source empty and download refused / index unreadable)"
 	case "refresh":
 		toks := []string{}
 		for _, ru := range op.rules {
@@ -684,6 +686,13 @@ func genSingleList(rng *rand.Rand, mode string, withClient bool, length int) (op
 	for len(ops) < length {
 		switch x := rng.IntN(20); {
 		case x < 3:
+			if rng.IntN(4) == 0 {
+				// Fault path: the refresh fails, the previous list (engine and
+				// cache together) must stay in force.
+				ops = append(ops, slOp{kind: "failrefresh"})
+
+				continue
+			}
 			ver++
 			ops = append(ops, refresh())
 		case x < 6 && !isSS(mode):
@@ -747,6 +756,28 @@ func slApplyRefresh(s *store, mode string, op slOp, initial bool) {
 	s.refresh(initial)
 }
 
+// slApplyFailedRefresh makes the source of the filter unusable and refreshes: an
+// empty cache file sends a rule list or a safe-search list to its download URL,
+// where the connection is refused; the blocked-service index is a file URL and
+// gets unreadable JSON.  The refresh must report the failure.
+func slApplyFailedRefresh(s *store, mode string) {
+	switch mode {
+	case "rl":
+		s.writeList("rl1", "")
+	case "svc":
+		hlib.Must(os.WriteFile(filepath.Join(s.dir, "services.json"), []byte("{not json"), 0o644))
+	case "ss", "ss2":
+		s.writeList(string(filter.IDGeneralSafeSearch), "")
+		if mode == "ss2" {
+			s.writeList(string(filter.IDYoutubeSafeSearch), "")
+		}
+	}
+	err := s.st.Refresh(context.Background())
+	if errs := s.errs.take(); err == nil && len(errs) == 0 {
+		panic(fmt.Errorf("storage refresh from an unusable source (%s) reported no error", mode))
+	}
+}
+
 func slConf(mode string) *filter.ConfigClient {
 	switch mode {
 	case "rl":
@@ -787,7 +818,7 @@ func runSingleList(r *hlib.Result, m *hlib.Model, mode string, capn int, withCli
 	var heldFlt filter.Interface
 	heldAt := -1
 	first := true
-	nFiltered, nNone, nRefresh, nHeldOld := 0, 0, 0, 0
+	nFiltered, nNone, nRefresh, nHeldOld, nFailRefresh := 0, 0, 0, 0, 0
 	for _, op := range ops {
 		switch op.kind {
 		case "refresh":
@@ -801,6 +832,13 @@ func runSingleList(r *hlib.Result, m *hlib.Model, mode string, capn int, withCli
 				toks = append(toks, ru.tok())
 			}
 			lines = append(lines, strings.TrimSpace(fmt.Sprintf("rl refresh %d %s", op.ver, strings.Join(toks, " "))))
+		case "failrefresh":
+			if first {
+				continue
+			}
+			slApplyFailedRefresh(a, mode)
+			slApplyFailedRefresh(b, mode)
+			nFailRefresh++
 		case "hold":
 			heldFlt, heldAt = a.st.ForConfig(context.Background(), conf), nRefresh
 		case "q", "qh":
@@ -920,6 +958,7 @@ func runSingleList(r *hlib.Result, m *hlib.Model, mode string, capn int, withCli
 		r.Distribution["single.answers_filtered"] += nFiltered
 		r.Distribution["single.answers_none"] += nNone
 		r.Distribution["single.refreshes"] += nRefresh
+		r.Distribution["single.failed_refreshes"] += nFailRefresh
 		r.Distribution["single.requests_with_replaced_filter"] += nHeldOld
 		r.ModelOps += len(lines)
 		r.Traces++
